@@ -171,6 +171,11 @@ fn build_history(st: &State, t: &mut Toks) -> PResult<std::result::Result<(Diame
     Ok(Ok((m, statuses)))
 }
 
+/// the message a history denotes (Err(line) = the start failed)
+pub fn build_history_pub(st: &State, t: &mut Toks) -> PResult<std::result::Result<DiameterMessage, String>> {
+    Ok(build_history(st, t)?.map(|(m, _)| m))
+}
+
 fn run_history(st: &State, t: &mut Toks) -> PResult<String> {
     match build_history(st, t)? {
         Err(line) => Ok(line),
@@ -544,6 +549,9 @@ pub fn handle(st: &mut State, line: &str) -> String {
             "H" => run_history(st, &mut t),
             "G" => run_access(st, &mut t),
             "W" => run_faultwrite(st, &mut t),
+            "SD" => crate::stream::decode_n(st, &mut t),
+            "SE" => crate::stream::encode_1(st, &mut t),
+            "SV" => crate::stream::serve(st, &mut t),
             "X" => run_decode(st, &mut t),
             "LEAFDEC" => leaf_dec(&mut t),
             "LEAFENC" => leaf_enc(&mut t),
